@@ -31,9 +31,11 @@ struct c19_ctx {
 	int level;
 };
 
-void log_err(const char *fmt, ...) { (void)fmt; }
-void log_warn(const char *fmt, ...) { (void)fmt; }
-void log_info(const char *fmt, ...) { (void)fmt; }
+#include <stdio.h>
+static void vlog(const char *fmt, va_list ap) { if (getenv("C19_LOG")) { vfprintf(stderr, fmt, ap); fputc('\n', stderr); } }
+void log_err(const char *fmt, ...) { va_list ap; va_start(ap, fmt); vlog(fmt, ap); va_end(ap); }
+void log_warn(const char *fmt, ...) { va_list ap; va_start(ap, fmt); vlog(fmt, ap); va_end(ap); }
+void log_info(const char *fmt, ...) { va_list ap; va_start(ap, fmt); vlog(fmt, ap); va_end(ap); }
 void cjet_get_random_bytes(void *bytes, size_t n) { memset(bytes, 0x5a, n); }
 
 static struct c19_ctx *g_ctx;
